@@ -965,6 +965,7 @@ def OP_RANDOM(tape: Tape, stack: Stack, cache: dict) -> None:
     """
     # size = int.from_bytes(tape.read(1), 'big')
     size = bytes_to_int(stack.get())
+    sert(0 <= size <= stack.max_item_size, 'OP_RANDOM invalid size')
     stack.put(token_bytes(size))
 
 def OP_RETURN(tape: Tape, stack: Stack, cache: dict) -> None:
